@@ -314,7 +314,7 @@ def path_data(draw, box, closed_bias=True, wild=False):
 
 @st.composite
 def shape(draw, cfg: Cfg, box: Box, kinds=None):
-    kinds = kinds or (["rect", "rect", "circle", "ellipse", "polygon", "polyline", "path", "path", "ring", "star"] * 3 + ["tiny-coord"] + (["line"] * 3 if cfg.lines else []))
+    kinds = kinds or (["rect", "rect", "circle", "ellipse", "polygon", "polyline", "path", "path", "ring", "star"] * 3 + ["tiny-coord", "bowtie"] + (["line"] * 3 if cfg.lines else []))
     k = draw(st.sampled_from(kinds))
     if k == "rect":
         a = {"x": fmt(_px(draw, box)), "y": fmt(_py(draw, box)), "width": fmt(_size(draw, box)), "height": fmt(_size(draw, box))}
@@ -338,6 +338,12 @@ def shape(draw, cfg: Cfg, box: Box, kinds=None):
         w, h = max(2, round(_size(draw, box, 10, 50))), max(2, round(_size(draw, box, 10, 50)))
         t = draw(st.sampled_from(["0.00005", "0.00002", "5e-05", "0.00007"]))
         return node("path", {"d": f"M{x},{y} L{x + w},{t} L{x + w},{y + h} L{x},{y + h} Z"})
+    if k == "bowtie":
+        # one self-crossing contour whose two lobes have exactly cancelling signed areas (integer coordinates): it
+        # paints both lobes under either fill rule although its "area" sums to zero
+        x, y = round(_px(draw, box)), round(_py(draw, box))
+        w, h = max(4, round(_size(draw, box, 15, 50))), max(4, round(_size(draw, box, 15, 50)))
+        return node("path", {"d": f"M{x},{y} L{x + w},{y + h} L{x + w},{y} L{x},{y + h} Z"})
     if k == "ring":
         # two nested contours; same direction -> nonzero fills the hole, evenodd does not
         x, y, w, h = _px(draw, box), _py(draw, box), _size(draw, box, 20, 60), _size(draw, box, 20, 60)
